@@ -185,6 +185,15 @@ func genLCase() *rapid.Generator[LCase] {
 			return op
 		})
 		c.Ops = append(c.Ops, LOp{K: "enq"}, LOp{K: "enq"}, LOp{K: "enq"})
+		if rapid.IntRange(0, 3).Draw(t, "mixed_batch_motif") == 0 {
+			// one batch presents a live lease and an expired, not yet released one (either order)
+			order := []int{-1, -2}
+			if rapid.Bool().Draw(t, "expired_first") {
+				order = []int{-2, -1}
+			}
+			c.Ops = append(c.Ops, LOp{K: "deq", N: 1, TTLMs: 1000}, LOp{K: "deq", N: 1, TTLMs: 200000}, LOp{K: "adv", Ms: 1001},
+				LOp{K: rapid.SampledFrom([]string{"ack", "nack"}).Draw(t, "motif_k"), Batch: true, L: order})
+		}
 		c.Ops = append(c.Ops, rapid.SliceOfN(g, 3, 30).Draw(t, "ops")...)
 		return c
 	})
@@ -444,6 +453,12 @@ func runLCase(c LCase) *lOutcome {
 				return out
 			}
 			if !changedOK(id, b, a, inA) {
+				defer func() {
+					// a message that vanished without a live lease of it having been acked is lost (C01)
+					if f := out.Failure; f != nil && f.Clause == "stale-lease-changed-message" && !inA && !strings.Contains(f.Prop, "C01") {
+						f.Prop += ",C01"
+					}
+				}()
 				out.Failure = lfail("stale-lease-changed-message", i, "%s: message %s changed %+v -> %+v (present=%v) although no valid lease of it was presented", desc, id, b, a, inA)
 				return out
 			}
@@ -556,6 +571,28 @@ func runLCase(c LCase) *lOutcome {
 		if (gotConf > 0) != (rec.Code == 409) {
 			out.Failure = lfail("batch-status", i, "%s: %d conflicts expected but status %d", desc, wantConf, rec.Code)
 			return out
+		}
+		// a live lease that the answer does not list as a conflict was settled: its message must show it
+		reported := map[string]bool{}
+		if cl, ok := respBody["conflicts"].([]any); ok {
+			for _, x := range cl {
+				if m, ok := x.(map[string]any); ok {
+					if l, ok := m["lease_id"].(string); ok {
+						reported[strings.TrimSpace(l)] = true
+					}
+				}
+			}
+		}
+		for _, e := range exps {
+			if !e.valid || e.dupInReq || reported[e.lease] {
+				continue
+			}
+			if a, inA := after[e.holder.ID]; inA && a.State == "leased" && a.Attempt == e.holder.Attempt {
+				f := lfail("success-without-effect", i, "%s: lease %s is live and not among the reported conflicts, but message %s is still leased", desc, e.lease, e.holder.ID)
+				f.Prop = "C04,C01"
+				out.Failure = f
+				return out
+			}
 		}
 		for _, e := range exps {
 			if e.valid && !e.dupInReq {
